@@ -2,6 +2,7 @@
 resolvers, scalar codecs, directive stubs - wired from a schema model + plan."""
 import copy
 import itertools
+import types
 
 from tfv import boot
 
@@ -42,9 +43,50 @@ class UserError(TartifletteError):
         self.extensions = dict(extensions)
 
 
+class DuckError(Exception):
+    """application error that renders itself: not a TartifletteError, only the `coerce_value` the engine asks for
+    (tartiflette.utils.errors.is_coercible_exception); no path / locations attributes"""
+
+    def __init__(self, message, extensions):
+        super().__init__(message)
+        self._message, self._extensions = message, dict(extensions)
+
+    def coerce_value(self, *_args, path=None, locations=None, **_kwargs):
+        out = {"message": self._message, "path": path, "locations": [loc.collect_value() for loc in locations or []]}
+        if self._extensions:
+            out["extensions"] = dict(self._extensions)
+        return out
+
+
+ODD_EXCEPTIONS = [
+    lambda: KeyError(7), lambda: KeyError(None), lambda: KeyError((1, 2)), lambda: KeyError(), lambda: ValueError(), lambda: Exception(5),
+    lambda: Exception(b"\xff"), lambda: Exception({"a": 1}), lambda: IndexError(3.5), lambda: Exception("a", 2), lambda: Exception(None),
+]
+
+
 class PlainObj:
     def __repr__(self):  # no memory address: engine messages embed reprs and responses are compared
         return "<PlainObj>"
+
+
+class Row:
+    """row-like value: subscriptable, not a dict, no attributes"""
+
+    __slots__ = ("_d",)
+
+    def __init__(self, d):
+        object.__setattr__(self, "_d", d)
+
+    def __getitem__(self, k):
+        return object.__getattribute__(self, "_d")[k]
+
+    def __getattribute__(self, k):
+        if k.startswith("__") or k == "_d":
+            return object.__getattribute__(self, k)
+        raise AttributeError(k)
+
+    def __repr__(self):
+        return "<Row>"
 
 
 class Materialiser:
@@ -60,12 +102,13 @@ class Materialiser:
         if nid in self.memo:
             return self.memo[nid]
         shape = node.get("_shape", 0)
-        if shape == 0:
-            o = {"_typename": node["_typename"], "_nid": nid}
+        if shape in (0, 3, 4):
+            d = {"_typename": node["_typename"], "_nid": nid}
+            o = d if shape == 0 else (types.MappingProxyType(d) if shape == 3 else Row(d))
             self.memo[nid] = o
             for k, v in node.items():
                 if not k.startswith("_"):
-                    o[k] = deref(self.tree, v, self)
+                    d[k] = deref(self.tree, v, self)
         else:
             if shape == 1:
                 o = PlainObj()
@@ -84,25 +127,47 @@ class Materialiser:
         return o
 
 
+_MAPPINGS = (dict, types.MappingProxyType, Row)
+
+
+def _item(m, k):
+    try:
+        return m[k]
+    except KeyError:
+        return None
+
+
 def node_get(parent, field):
-    if isinstance(parent, dict):
-        return parent.get(field)
+    if isinstance(parent, _MAPPINGS):
+        return _item(parent, field)
     return getattr(parent, field, None)
 
 
 def nid_of(parent):
     if parent is None:
         return None
-    if isinstance(parent, dict):
-        return parent.get("_nid")
+    if isinstance(parent, _MAPPINGS):
+        return _item(parent, "_nid")
     return getattr(parent, "_nid", None)
 
 
 def typename_of(value):
-    if isinstance(value, dict):
-        return value.get("_typename")
+    if isinstance(value, _MAPPINGS):
+        return _item(value, "_typename")
     tn = getattr(value, "_typename", None)
     return tn if tn is not None else value.__class__.__name__
+
+
+def scramble_in_place(v):
+    """what a resolver working on its arguments in place does: append / insert / overwrite"""
+    if isinstance(v, dict):
+        for x in list(v.values()):
+            scramble_in_place(x)
+        v["zz_scrambled"] = 1
+    elif isinstance(v, list):
+        for x in v:
+            scramble_in_place(x)
+        v.append("zz_scrambled")
 
 
 class RequestState:
@@ -129,6 +194,11 @@ class Harness:
       tr_engine: bool (custom_default_type_resolver)
       tr_object: bool (type resolvers return the GraphQLObjectType, not its name)
       concurrency: {"Type.field": {"list": None|bool, "parent": None|bool}}
+      sdl_split: {type name: k} - the SDL defines these types as definition + `extend` block (model.split_type)
+      scramble_args: bool - the argument dictionaries handed to resolvers are kept, and modified in place once their
+        request is over (scramble_live, called by the check), as user code holding on to its arguments may do;
+        nothing of that may reach a later request.  (Within one request a coerced variable value is legitimately
+        the same object at each of its uses - as in the reference implementation - so nothing is touched earlier.)
     """
 
     def __init__(self, schema, plan, tree, schema_name=None, gate=None):
@@ -140,6 +210,7 @@ class Harness:
         self.gate = gate  # async callable(label) or None
         self.sdl = None
         self.engine = None
+        self.live_args = []
         self.foreign = []  # tokens of foreign requests served by this harness' implementations (must stay empty)
 
     # default request state (one request at a time); C15 passes its own states through the context
@@ -190,9 +261,19 @@ class Harness:
         if f.kind == "raise":
             raise RuntimeError("boom-%d" % n)
         if f.kind == "raise_tartiflette":
+            if f.payload.get("duck"):
+                raise DuckError(f.payload["message"], f.payload["extensions"])
             raise UserError(f.payload["message"], f.payload["extensions"])
         if f.kind == "return_exception":
             return ValueError("returned-%d" % n)
+        if f.kind == "raise_odd":
+            # what look-up style user code raises: exceptions whose arguments are not text, or missing
+            raise ODD_EXCEPTIONS[f.payload % len(ODD_EXCEPTIONS)]()
+        if f.kind == "raise_tagged_in_place":
+            # user code annotating a library error it created without extensions, through the public attribute
+            err = TartifletteError("Forbidden-%d" % n)
+            err.extensions["code"] = "FORBIDDEN"
+            raise err
         if f.kind == "value":
             return materialise_bad(f.payload)
         raise AssertionError("unknown fault kind %r" % (f.kind,))
@@ -204,10 +285,13 @@ class Harness:
         async def resolver(parent, args, ctx, info):
             path = tuple(info.path.as_list())
             rs = H.state_of(ctx)
-            rs.calls.append((path, coord, nid_of(parent), copy.deepcopy(args), ctx is rs.ctx))
+            seen = copy.deepcopy(args)
+            rs.calls.append((path, coord, nid_of(parent), seen, ctx is rs.ctx))
+            if H.plan.get("scramble_args"):
+                H.live_args.append(args)
             if H.gate is not None:
                 await H.gate(("resolver", path) if rs is H.rs else ("resolver", path, rs.rid))
-            return H.serve(rs, parent, obj, field, args, path)
+            return H.serve(rs, parent, obj, field, seen, path)
 
         resolver.__name__ = "res_%s_%s" % (obj, field)
         return resolver
@@ -216,10 +300,13 @@ class Harness:
         path = tuple(info.path.as_list())
         coord = "%s.%s" % (info.parent_type.name, info.field_name)
         rs = self.state_of(ctx)
-        rs.calls.append((path, coord, nid_of(parent), copy.deepcopy(args), ctx is rs.ctx))
+        seen = copy.deepcopy(args)
+        rs.calls.append((path, coord, nid_of(parent), seen, ctx is rs.ctx))
+        if self.plan.get("scramble_args"):
+            self.live_args.append(args)
         if self.gate is not None:
             await self.gate(("resolver", path) if rs is self.rs else ("resolver", path, rs.rid))
-        return self.serve(rs, parent, info.parent_type.name, info.field_name, args, path)
+        return self.serve(rs, parent, info.parent_type.name, info.field_name, seen, path)
 
     # ---------------------------------------------------------------- type resolvers
     def _answer(self, value, abstract, level, info, coord, ctx=None):
@@ -288,7 +375,7 @@ class Harness:
             steps.append(lambda an=an: TypeResolver(an, schema_name=self.name)(self.make_type_resolver("type")))
         for n, d in self.schema["types"].items():
             if d["kind"] == "SCALAR":
-                steps.append(lambda n=n, d=d: Scalar(n, schema_name=self.name)(make_scalar(CODECS[d.get("codec", "tagged")])))
+                steps.append(lambda n=n, d=d: Scalar(n, schema_name=self.name)(make_scalar(CODECS[d.get("codec", "tagged")], self.plan.get("scalar_tag"))))
         for n in self.schema.get("directives") or {}:
             if n in ("skip", "include", "deprecated", "nonIntrospectable"):
                 continue
@@ -302,7 +389,7 @@ class Harness:
 
     async def build(self, **kw):
         self.register()
-        self.sdl = self.plan.get("sdl") or print_sdl(self.schema, ext_dirs=bool(self.plan.get("sdl_ext_dirs")))
+        self.sdl = self.plan.get("sdl") or print_sdl(self.schema, ext_dirs=bool(self.plan.get("sdl_ext_dirs")), split=self.plan.get("sdl_split"))
         if self.plan.get("custom_default_resolver"):
             kw["custom_default_resolver"] = self.custom_default_resolver
         if self.plan.get("tr_engine"):
@@ -314,6 +401,11 @@ class Harness:
         else:
             self.engine = await create_engine(self.sdl, schema_name=self.name, **kw)
         return self.engine
+
+    def scramble_live(self):
+        for a in self.live_args:
+            scramble_in_place(a)
+        self.live_args = []
 
     def set_tree(self, tree):
         """switch to the data of another request on the same engine"""
@@ -364,6 +456,13 @@ class CountingDirective:
         self.H.state_of(ctx).hooks.append((self.name, "on_pre_output_coercion"))
         return await next_directive(value, ctx, info)
 
+    async def on_introspection(self, directive_args, next_directive, introspected_element, ctx, info):
+        # with plan["introspection_by_rid"], what a caller may see depends on the caller: requests with an odd id do not
+        # get the elements carrying this directive (a per-caller visibility rule, as the documentation suggests)
+        if self.H.plan.get("introspection_by_rid") and isinstance(ctx, dict) and ctx.get("rid", 0) % 2 == 1:
+            return None
+        return await next_directive(introspected_element, ctx, info)
+
     async def on_field_collection(self, directive_args, next_directive, field_node, ctx):
         self.H.state_of(ctx).hooks.append((self.name, "on_field_collection"))
         return await next_directive(field_node, ctx)
@@ -400,20 +499,28 @@ def materialise_bad(payload):
     return payload
 
 
-def make_scalar(codec):
+def make_scalar(codec, tag=None):
+    """tag: marks what this implementation's input side produces (C17: the same scalar name is implemented differently
+    under every schema name; resolvers echo their arguments, so the marker shows in responses)"""
+
+    def mark(v):
+        if tag is None:
+            return v
+        return "%s~%s" % (v, tag) if isinstance(v, str) else v + 1000 * (1 + sum(map(ord, tag)) % 7)
+
     class _S:
         def coerce_output(self, v):
             return codec.to_wire(v)
 
         def coerce_input(self, v):
-            return codec.from_wire(v)
+            return mark(codec.from_wire(v))
 
         def parse_literal(self, ast):
             try:
                 if isinstance(ast, StringValueNode):
-                    return codec.from_literal(["str", ast.value])
+                    return mark(codec.from_literal(["str", ast.value]))
                 if isinstance(ast, IntValueNode):
-                    return codec.from_literal(["int", str(ast.value)])
+                    return mark(codec.from_literal(["int", str(ast.value)]))
             except ValueError:
                 pass
             return UNDEFINED_VALUE
